@@ -128,10 +128,11 @@ func init() {
 
 	g1Specs["C20rounds"] = func(tier string) *G1Spec {
 		alpha := []*BatchSpec{{Ops: ops("S:a")}, {Kids: kid("A", &BatchSpec{Ops: ops("S:a")})}, {DelKids: []string{"A"}},
-			{Ops: ops("S:b"), Kids: kid("A", &BatchSpec{Ops: ops("D:a")})}}
+			{Ops: ops("S:b"), Kids: kid("A", &BatchSpec{Ops: ops("D:a")})},
+			{Kids: kid("A", &BatchSpec{Kids: kid("X", &BatchSpec{Ops: ops("S:a")})})}}
 		sp := asRounds(g1Specs["C20"](tier), tier, alpha, false, 0.2)
 		// without the reopen step (C20's oracle reopens a copy of the directory itself), with batches that stay in memory
-		sp.Steps = append(roundSteps(alpha, "MA/Pb/Pe"), "B0", "B1/M")
+		sp.Steps = append(roundSteps(alpha, "MA/Pb/Pe"), "B0", "B1/M", "B4", "B4/M")
 		sp.MaxR = 0
 		return sp
 	}
